@@ -249,10 +249,25 @@ class StandardQTomography(QTomography):
             tmp_prob_dists = (
                 self.calc_matA() @ qope.to_stacked_vector() + self.calc_vecB()
             )
-        prob_dists = tmp_prob_dists.reshape((self.num_schedules, -1))
-        prob_dists = matrix_util.truncate_and_normalize(prob_dists)
+        sizes = self._sizes_prob_dists()
+        if len(set(sizes)) <= 1:
+            prob_dists = tmp_prob_dists.reshape((self.num_schedules, -1))
+            prob_dists = matrix_util.truncate_and_normalize(prob_dists)
+        else:
+            # the schedules have different numbers of outcomes: split by the size of each schedule
+            prob_dists = [
+                matrix_util.truncate_and_normalize(prob_dist)
+                for prob_dist in np.split(tmp_prob_dists, np.cumsum(sizes)[:-1])
+            ]
 
         return prob_dists
+
+    def _sizes_prob_dists(self) -> List[int]:
+        # returns the number of outcomes of each schedule
+        sizes = [0] * self.num_schedules
+        for (schedule_index, _) in self._coeffs_0th.keys():
+            sizes[schedule_index] += 1
+        return sizes
 
     def calc_covariance_mat_single(
         self, qope: QOperation, schedule_index: int, data_num: int
@@ -412,12 +427,11 @@ class StandardQTomography(QTomography):
 
         matA = self.calc_matA()
         vecB = self.calc_vecB()
-        size_prob_dist = int(len(matA) / self.num_schedules)
-        prob_dist = (
-            matA[size_prob_dist * j : size_prob_dist * (j + 1)] @ var
-            + vecB[size_prob_dist * j : size_prob_dist * (j + 1)]
-        )
-        grad_prob_dist = matA[size_prob_dist * j : size_prob_dist * (j + 1)]
+        sizes = self._sizes_prob_dists()
+        start = sum(sizes[:j])
+        end = start + sizes[j]
+        prob_dist = matA[start:end] @ var + vecB[start:end]
+        grad_prob_dist = matA[start:end]
         fisher_matrix = matrix_util.calc_fisher_matrix(prob_dist, grad_prob_dist)
 
         return fisher_matrix
